@@ -1045,6 +1045,7 @@ func loadViewFromFixedLengthTextFile(ctx context.Context, fp *file.Reader, fileI
 		if err != nil {
 			return nil, err
 		}
+		fileInfo.positionsDetected = true
 
 		if _, err = br.Seek(0, io.SeekStart); err != nil {
 			return nil, NewIOError(expr, err.Error())
